@@ -192,7 +192,7 @@ class Interp:
         e = self._next_entry()
         if e is not None:
             kind, d, want = e
-            if kind == "x" or want != h or (kind == "p") != bool(self.pure):
+            if kind in ("x", "t") or want != h or (kind == "p") != bool(self.pure):
                 raise Unsupported("engine error: non-deterministic replay of a path (entry %d)" % self.pos)
             self._record(e)
             if not self.pure:
@@ -216,22 +216,43 @@ class Interp:
         self.assume(cond if d else z3.Not(cond))
         return d
 
-    def try_pure(self, thunk):
-        """evaluate thunk() without forking; returns (ok, value)"""
+    def try_pure(self, thunk, propagate_raise=False, tolerate_unsupported=False):
+        """evaluate thunk() without forking; returns (ok, value).  propagate_raise: an exception raised
+        without any fork is unconditional on this path and is raised (used for the arguments of dropped
+        logger statements)"""
         e = self._next_entry()
         if e is not None and e[0] == "x":
             self._record(e)           # recorded: this speculative evaluation was abandoned
             return False, None
+        if e is not None and e[0] != "t":
+            raise Unsupported("engine error: non-deterministic replay of a path (entry %d, speculative evaluation)" % self.pos)
         saved = (len(self.pc), self.pos, list(self.trace), len(self.decisions), len(self.pending), len(self.events))
         replaying = e is not None
+        self._record(("t", None, 0))  # every speculative evaluation leaves a mark: 't' completed, 'x' abandoned
         self.pure += 1
         self.solver.push()
         try:
             v = thunk()
             ok = True
-        except (Impure, PyRaise):
+        except PyRaise:
+            if propagate_raise:
+                self.solver.pop()
+                for c in self.pc[saved[0]:]:
+                    self.solver.add(c)
+                raise
             v = None
             ok = False
+            why = "exception"
+        except Impure:
+            v = None
+            ok = False
+            why = "fork needed"
+        except Unsupported as ex:
+            if not tolerate_unsupported:
+                raise
+            v = None
+            ok = False
+            why = "unsupported: %s" % ex
         finally:
             self.pure -= 1
         if ok:
@@ -241,7 +262,7 @@ class Interp:
                 self.solver.add(c)
             return True, v
         if replaying:
-            raise Unsupported("engine error: a recorded speculative evaluation failed on replay")
+            raise Unsupported("engine error: a recorded speculative evaluation failed on replay (%s)" % why)
         self.solver.pop()
         del self.pc[saved[0]:]
         self.pos = saved[1]
@@ -1450,7 +1471,22 @@ class Interp:
 
     def x_Expr(self, s, fr):
         if self.world.is_logger_call(s.value):
-            return            # dropped statement (A-log)
+            # the call itself is dropped (A-log); its arguments are evaluated without forking, so an
+            # exception they raise unconditionally on this path is seen
+            args = list(s.value.args) + [k.value for k in s.value.keywords]
+
+            def thunk():
+                try:
+                    for a in args:
+                        self.eval(a, fr)
+                except PyRaise as e:
+                    if e.lineno is not None:
+                        # raised inside a function the arguments call (__repr__/__str__ of a value the
+                        # unit's setup models only partially): not decided here, stays dropped
+                        raise Impure()
+                    raise
+            self.try_pure(thunk, propagate_raise=True, tolerate_unsupported=True)
+            return
         if isinstance(s.value, ast.Constant):
             return
         self.eval(s.value, fr)
